@@ -4,19 +4,60 @@ import (
 	rt "github.com/teleport-network/teleport/zzverifrt"
 )
 
-// VerifC19Smoke: receipt keys of two triples with 3-byte names collide only if the triples are equal.
-func VerifC19Smoke() {
-	rt.Opt("exact-decimal")
-	s1, d1 := rt.StrN("s1", 3), rt.StrN("d1", 3)
-	s2, d2 := rt.StrN("s2", 3), rt.StrN("d2", 3)
-	q1, q2 := rt.U64("q1"), rt.U64("q2")
-	rt.Assume(q1 < 1000 && q2 < 1000)
-	rt.Assume(SrcChainValidator(s1) == nil && SrcChainValidator(s2) == nil)
-	rt.Assume(DstChainValidator(d1) == nil && DstChainValidator(d2) == nil)
-	k1 := PacketReceiptKey(s1, d1, q1)
-	k2 := PacketReceiptKey(s2, d2, q2)
-	rt.Reach("built")
-	if string(k1) == string(k2) {
-		rt.Assert("J1-receipt-injective", s1 == s2 && d1 == d2 && q1 == q2)
+func validName(tag string) string {
+	hi := 3 + rt.Tier()
+	if tag == "s1" || tag == "s2" || tag == "s" {
+		hi++ // source names sweep one more length than destination names
 	}
+	n := rt.IntRange(tag+".len", 3, hi)
+	s := rt.StrN(tag, n)
+	rt.Assume(SrcChainValidator(s) == nil)
+	return s
+}
+
+func keyOf(kind int, s, d string, q uint64) []byte {
+	switch kind {
+	case 0:
+		return PacketCommitmentKey(s, d, q)
+	case 1:
+		return PacketAcknowledgementKey(s, d, q)
+	case 2:
+		return PacketReceiptKey(s, d, q)
+	case 3:
+		return PacketRelayerKey(s, d, q)
+	}
+	return NextSequenceSendKey(s, d)
+}
+
+// VerifC19PacketKeys (J1): for valid chain names of 3..4 (thorough 3..5) bytes and sequences below 10^4, two keys of any
+// of the five packet key families coincide only if family and (source, destination, sequence) coincide.
+func VerifC19PacketKeys() {
+	rt.Opt("exact-decimal")
+	s1, d1, s2, d2 := validName("s1"), validName("d1"), validName("s2"), validName("d2")
+	q1, q2 := rt.U64("q1"), rt.U64("q2")
+	rt.Assume(q1 < 10000 && q2 < 10000)
+	k1, k2 := rt.IntRange("kind1", 0, 4), rt.IntRange("kind2", 0, 4)
+	rt.Assume(k1 <= k2)
+	a, b := keyOf(k1, s1, d1, q1), keyOf(k2, s2, d2, q2)
+	rt.Reach("built")
+	if string(a) == string(b) {
+		rt.Reach("equal-keys")
+		rt.Assert("J1-same-family", k1 == k2)
+		rt.Assert("J1-same-path", s1 == s2 && d1 == d2)
+		if k1 != 4 {
+			rt.Assert("J1-same-sequence", q1 == q2)
+		}
+	}
+}
+
+// VerifC19ParsePath: ParsePath reads back the two chain names of every packet key.
+func VerifC19ParsePath() {
+	rt.Opt("exact-decimal")
+	s, d := validName("s"), validName("d")
+	q := rt.U64("q")
+	rt.Assume(q < 10000)
+	k := rt.IntRange("kind", 0, 4)
+	ps, pd, err := ParsePath(string(keyOf(k, s, d, q)))
+	rt.Reach("parsed")
+	rt.Assert("J2-parse-path", err == nil && ps == s && pd == d)
 }
